@@ -119,7 +119,7 @@ fn main() {
             let book = pick(&mut rng, &books).clone();
             let decay = *pick(&mut rng, &[1.0, 0.5, 0.25]);
             cfg = json!({
-                "kind": kind, "multi": multi, "tick": tick, "n": n_agents, "steps": steps, "book": if saturate || mirror { "two_sided".to_string() } else { book },
+                "kind": kind, "multi": multi, "tick": tick, "n": n_agents, "steps": steps, "book": if saturate || mirror || kind == "momentum" { "two_sided".to_string() } else { book },
                 "agent_seed": rng.gen::<u32>(), "asset": if multi { rng.gen_range(0..2usize) } else { 0 },
                 "p_limit": *pick(&mut rng, &probs), "p_market": *pick(&mut rng, &probs), "p_cancel": *pick(&mut rng, &probs),
                 "rate": *pick(&mut rng, &probs), "sigma": *pick(&mut rng, &sigmas), "mu": *pick(&mut rng, &[0.0, 2.0]),
@@ -146,7 +146,8 @@ fn main() {
         let asset = c["asset"].as_u64().unwrap() as usize;
         let id0 = c["id0"].as_u64().unwrap() as u32;
         let level = c["level"].as_u64().unwrap() as i64 * tick as i64; // on the grid
-        let controlled = kind == "momentum" && (saturate || mirror);
+        let controlled = kind == "momentum"; // the harness imposes the mid-price path, else the signal would stay 0 forever
+        let saturated = controlled && (saturate || mirror);
         let sign: i64 = if reflected { -1 } else { 1 };
 
         let mut world = if multi { World::W2(MarketEnv::<2, 10>::new(0, [tick, tick], 1000, true)) } else { World::W1(Env::new(0, tick, 1000, true)) };
@@ -157,8 +158,8 @@ fn main() {
         let noise_params = || NoiseAgentParams { tick_size: tick, p_limit: c["p_limit"].as_f64().unwrap() as f32, p_market: c["p_market"].as_f64().unwrap() as f32,
             p_cancel: c["p_cancel"].as_f64().unwrap() as f32, trade_vol: c["vol"].as_u64().unwrap() as u32, price_dist_mu: c["mu"].as_f64().unwrap(), price_dist_sigma: c["sigma"].as_f64().unwrap() };
         let mom_params = || MomentumParams { tick_size: tick, p_cancel: c["p_cancel"].as_f64().unwrap() as f32, trade_vol: c["vol"].as_u64().unwrap() as u32,
-            decay: c["decay"].as_f64().unwrap(), demand: if controlled { n as f64 * c["demand_mult"].as_f64().unwrap() } else { c["demand_mult"].as_f64().unwrap() * 3.0 },
-            scale: if controlled { 1.0e12 } else { 0.5 }, order_ratio: c["order_ratio"].as_f64().unwrap(), price_dist_mu: c["mu"].as_f64().unwrap(), price_dist_sigma: c["sigma"].as_f64().unwrap() };
+            decay: c["decay"].as_f64().unwrap(), demand: if saturated { n as f64 * c["demand_mult"].as_f64().unwrap() } else { c["demand_mult"].as_f64().unwrap() * 3.0 },
+            scale: if saturated { 1.0e12 } else { 0.5 }, order_ratio: c["order_ratio"].as_f64().unwrap(), price_dist_mu: c["mu"].as_f64().unwrap(), price_dist_sigma: c["sigma"].as_f64().unwrap() };
         let tick_lo = c["tick_lo"].as_u64().unwrap() as u32;
         let tick_hi = tick_lo + c["tick_span"].as_u64().unwrap() as u32;
         let vol_lo = c["vol_lo"].as_u64().unwrap() as u32;
@@ -180,7 +181,7 @@ fn main() {
             "vol": c["vol"], "tick_lo": tick_lo, "tick_hi": tick_hi, "vol_lo": vol_lo, "vol_hi": vol_hi,
             "decay4": (c["decay"].as_f64().unwrap() * 4.0) as u64, "order_ratio_one": c["order_ratio"].as_f64().unwrap() >= 1.0,
             "order_ratio_zero": c["order_ratio"].as_f64().unwrap() <= 0.0,
-            "saturated": controlled, "reflected": reflected, "mirror": mirror, "cfg": c});
+            "saturated": saturated, "controlled": controlled, "reflected": reflected, "mirror": mirror, "cfg": c});
         writeln!(f, "{}", ev).unwrap();
         n_events += 1;
         *feats.entry(format!("runs_{}{}", kind, if multi { "_market" } else { "" })).or_insert(0) += 1;
